@@ -97,6 +97,21 @@ function structuralCheck (job, resp) {
   try { b = A.parse(resp.ok.raw.code, { module: !!job.meta.module }) } catch (e) { const p = A.parseAuto(resp.ok.raw.code); if (p.error) return { status: 'output-unparsable' }; b = p.ast }
   const sites = A.census(b).sites
   const problems = []
+  // each spread operand of a hook call must be a temporary assigned from `[...x]` in the same injected sequence
+  // (one evaluation of the iterable serves both the call and the hook)
+  A.walk(b, (n) => {
+    if (n.type !== 'SequenceExpression') return
+    const defs = new Map()
+    for (const e of n.expressions.slice(0, -1)) if (e.type === 'AssignmentExpression' && e.operator === '=' && e.left.type === 'Identifier') defs.set(e.left.name, e.right)
+    const last = n.expressions[n.expressions.length - 1]
+    if (!A.isHookCall(last)) return
+    for (const a of last.arguments.slice(1)) {
+      if (a.type !== 'SpreadElement') continue
+      const d = a.argument.type === 'Identifier' ? defs.get(a.argument.name) : null
+      const ok = d && d.type === 'ArrayExpression' && d.elements.length === 1 && d.elements[0] && d.elements[0].type === 'SpreadElement'
+      if (!ok) problems.push({ name: last.callee.property.name, kind: 'spread-not-materialised-once', detail: 'a spread operand of the hook is not a temporary holding [...iterable]: the iterable is iterated once for the call and again for the hook', text: clip(resp.ok.raw.code.slice(last.start, last.end), 200) })
+    }
+  })
   for (const s of sites) for (const p of H.checkSite(s.node)) problems.push(Object.assign({ name: s.name, text: clip(resp.ok.raw.code.slice(s.node.start, s.node.end), 200) }, p))
   return { status: 'ok', sites: sites.length, problems }
 }
